@@ -28,9 +28,10 @@ EXTENDS ColocateDefs, TLC, SequencesExt
 
 CONSTANTS NX, NY, NZ,     \* lattice
           Variant,        \* "doc" or a negative instance
-          HaloMode,       \* "few" | "all": which per-axis (wrap, symmetry) configurations are enumerated
+          HaloMode,       \* "few" | "all" | "neg" (two, for the negative instances): which per-axis (wrap, symmetry) configurations are enumerated
           NumFields,      \* number of Step-separated field states per run
           NumWidths,      \* 1 = uniform only, 2, 3 = plus stretched patterns
+          DetMode,        \* "all": every box, exact on / off;  "unit": the single-cell exact boxes only (negative instances)
           Parts           \* the detector list is dealt round-robin to this many independent runs (parallelism only)
 
 VARIABLES cfg, wp, fid, E, Hp, H,     \* configuration, width pattern, field state (Hp = H of before the step)
@@ -51,7 +52,8 @@ FewCfgs == { << << FALSE, 0 >>, << FALSE, 0 >>, << FALSE, 0 >> >>,        \* PEC
              << << FALSE, -1 >>, << TRUE, -1 >>, << TRUE, 1 >> >>,        \* electric x, y; magnetic z
              << << TRUE, 1 >>, << FALSE, -1 >>, << FALSE, -1 >> >>,       \* magnetic x (far side periodic), electric y, z
              << << FALSE, 0 >>, << TRUE, 0 >>, << TRUE, -1 >> >> }
-Cfgs == IF HaloMode = "all" THEN AxisCfgs \X AxisCfgs \X AxisCfgs ELSE FewCfgs
+NegCfgs == { << << TRUE, 0 >>, << TRUE, 0 >>, << TRUE, 0 >> >>, << << TRUE, -1 >>, << FALSE, -1 >>, << TRUE, 0 >> >> }
+Cfgs == IF HaloMode = "all" THEN AxisCfgs \X AxisCfgs \X AxisCfgs ELSE IF HaloMode = "neg" THEN NegCfgs ELSE FewCfgs
 \* the halo kinds the property speaks about, derived from the configuration
 LoKind(ac) == IF ac[2] = -1 THEN "mirror" ELSE IF ac[2] = 1 THEN "zero" ELSE IF ac[1] THEN "wrap" ELSE "zero"
 HiKind(ac) == IF ac[1] THEN "wrap" ELSE "zero"
@@ -74,8 +76,9 @@ HField(f) == Arr(LAMBDA c, p :
     ELSE (((f + 1) * (5 * c + 1) + 7 * p[1] * p[1] + 19 * p[2] + 3 * p[2] * p[3] + 29 * p[3] + c * p[1]) % 19) - 9)
 
 \* ---------------------------------------------------------------- detectors: every box, exact on / off
-Boxes == { b \in Intervals(NX) \X Intervals(NY) \X Intervals(NZ) : TRUE }
-Dets == SetToSeq({ [ s |-> << b[1][1], b[2][1], b[3][1] >>, e |-> << b[1][2], b[2][2], b[3][2] >>, exact |-> x ] : b \in Boxes, x \in BOOLEAN })
+Boxes == { b \in Intervals(NX) \X Intervals(NY) \X Intervals(NZ) :
+             DetMode = "unit" => \A a \in 1..3 : b[a][2] = b[a][1] + 1 }
+Dets == SetToSeq({ [ s |-> << b[1][1], b[2][1], b[3][1] >>, e |-> << b[1][2], b[2][2], b[3][2] >>, exact |-> x ] : b \in Boxes, x \in (IF DetMode = "unit" THEN {TRUE} ELSE BOOLEAN) })
 NoDet == [ s |-> << 0, 0, 0 >>, e |-> << 0, 0, 0 >>, exact |-> FALSE ]
 Shape(d) == << d.e[1] - d.s[1], d.e[2] - d.s[2], d.e[3] - d.s[3] >>
 
